@@ -54,8 +54,10 @@ class InducingPointKernel(Kernel):
         else:
             res = to_dense(self.base_kernel(self.inducing_points, self.inducing_points))
             if not self.training:
-                # (a cache that keeps its autograd graph cannot be back-propagated through by more than one prediction)
-                self._cached_kernel_mat = res.detach() if settings.detach_test_caches.on() else res
+                # (a cache that keeps its autograd graph cannot be back-propagated through by more than one prediction;
+                # the call that fills the cache hands out what later calls will read)
+                res = res.detach() if settings.detach_test_caches.on() else res
+                self._cached_kernel_mat = res
             return res
 
     @property
@@ -69,7 +71,8 @@ class InducingPointKernel(Kernel):
 
             res = inv_root
             if not self.training:
-                self._cached_kernel_inv_root = res.detach() if settings.detach_test_caches.on() else res
+                res = res.detach() if settings.detach_test_caches.on() else res
+                self._cached_kernel_inv_root = res
             return res
 
     def _get_covariance(self, x1, x2):
